@@ -32,9 +32,9 @@ METHOD_POLICIES = ['error', 'keep', 'dedup']
 
 def judge(t, wi, ni, wm, nm):
     """None, or the first disagreement of one group: ndl.ndl vs ndlModel, wh vs whModel, wh (renamed) vs ndl.ndl.
-    wh vs ndl is compared exactly; only the long sequences of stream many_chunks (t['_long']) whose model
-    values need more than 53 bits are compared with the 2^-30 relative tolerance of common.close"""
-    exact = not (t.get('_long') and max(wm.get('bits', 0), nm.get('bits', 0)) > 53)
+    wh vs ndl is compared exactly when the model values need at most learners.EXACT_BITS bits, otherwise with the
+    2^-30 relative tolerance of common.close"""
+    exact = max(wm.get('bits', 0), nm.get('bits', 0)) <= L.EXACT_BITS
     prob = L.compare(ni, nm)
     if prob:
         prob = 'ndl.ndl vs Lean model: ' + prob
@@ -180,7 +180,7 @@ def run(rep, pool, driver, tier):
                 rep.count('dict_wh:events_form:' + t['events_form'])
         if t.get('_long'):
             rep.count('chunk_files:%d' % whgen.n_chunk_files(len(t['events']), t['per_file']))
-            rep.count('many_chunks_domain:' + ('exact' if max(wm.get('bits', 0), nm.get('bits', 0)) <= 53 else 'tolerance'))
+            rep.count('many_chunks_domain:' + ('exact' if max(wm.get('bits', 0), nm.get('bits', 0)) <= 49 else 'tolerance'))
             alt = driver.ask([L.model_request(dict(c, events=whgen.lexsorted_events(t['events'], t['per_file'])), 'ndl_openmp')])[0]
             rep.count('many_chunks_sees_lexsort:' + ('yes' if alt.get('cells') != nm.get('cells') else 'no'))
         if prob and t.get('_long'):
